@@ -5,25 +5,33 @@ From Gnmi Require Import Base.Prelude Client.ClientModel Client.ClientCheck Clie
 Local Arguments Nat.ltb : simpl never.
 
 Ltac dst s :=
-  destruct s as [spc0 att0 conn0 curcl0 err0 cpc0 cw0 cok0 xpc0 rcl0 hc0 sd0 cr0 cp0 nc0 ns0 bc0 bi0 bm0].
+  destruct s as [spc0 att0 conn0 curcl0 err0 cpc0 cw0 cok0 xpc0 rcl0 hc0 sd0 cr0 cp0 nc0 ns0 bc0 bi0 bm0 cd0].
 
-(** ** through a ReconnectClient: nothing at all after Close returned *)
+(** ** through a ReconnectClient: nothing at all after a Close returned,
+       whatever calls follow ([p.closed] is a latch) *)
 
-Definition early (p : spc) : bool :=
+(** inside an attempt whose constructor has succeeded, or backing off before a retry *)
+Definition live (p : spc) : bool :=
   match p with
-  | SIdle | SInit | SFactory | SFacChk | SDisc | SCtxChk | SDone | SRet _ | SFin => true
+  | SImplSub | SImplSubChk | SSubFailClose | SInstall | SInstall2 | SRecv _ | SItem _
+  | SDeliver _ _ _ | SSyncEnd _ | SChk _ | SRunClose | SSleep | SReset => true
   | _ => false
   end.
+
+(** between initDone and the deferred close(subscribeDone) of one call *)
+Definition insub (p : spc) : bool :=
+  match p with SIdle | SInit | SDone | SRet _ | SFin => false | _ => true end.
 
 Definition emits (p : spc) : bool :=
   match p with SItem _ | SDeliver _ _ _ | SSyncEnd _ => true | _ => false end.
 
 Definition inv5 (s : st) : Prop :=
-  (r_subdone s = SDNil <-> (s_pc s = SIdle \/ s_pc s = SInit)) /\
-  (r_subdone s = SDClosed -> match s_pc s with SRet _ | SFin => True | _ => False end) /\
-  (match c_pc s with CIdle | CLock => True
-   | _ => r_closed s = true /\ (c_wait s = false -> early (s_pc s) = true) end) /\
-  (match c_pc s with CRet | CFin => c_wait s = true -> r_subdone s = SDClosed | _ => True end).
+  (insub (s_pc s) = true -> r_subdone s = SDOpen) /\
+  (c_done s = true -> r_closed s = true) /\
+  (r_closed s = true -> live (s_pc s) = true ->
+   c_done s = false /\ c_wait s = true /\
+   match c_pc s with CBase | CBaseHold | CWait => True | _ => False end) /\
+  (match c_pc s with CIdle | CLock => True | _ => r_closed s = true end).
 
 Lemma inv5_step sc s l s1 : inv3 s -> inv5 s -> In (l, s1) (step true sc s) -> inv5 s1.
 Proof.
@@ -32,10 +40,10 @@ Proof.
   try solve [intuition (try congruence; try discriminate)];
   try destruct cpc0; cbn in *;
   try solve [intuition (try congruence; try discriminate)];
-  try destruct cr0; try destruct cw0; cbn in *;
+  try destruct cr0; try destruct cd0; try destruct rcl0; cbn in *;
+  rewrite ?andb_false_r in *; try discriminate;
   intuition (try congruence; try discriminate).
-  all: rewrite ?andb_false_r in *; try discriminate.
-  all: try (destruct spc0; cbn in *; try reflexivity; intuition (try congruence; try discriminate)).
+  all: try (destruct spc0; cbn in *; intuition (try congruence; try discriminate)).
 Qed.
 
 Lemma inv5_reach sc s : reach true sc s -> inv5 s.
@@ -47,24 +55,30 @@ Proof.
   tauto.
 Qed.
 
-Lemma rc_closed_quiet s : inv5 s -> c_pc s = CFin -> emits (s_pc s) = false.
+Lemma rc_closed_quiet s : inv5 s -> c_done s = true -> emits (s_pc s) = false.
 Proof.
-  dst s; unfold inv5; cbn. intros [I1 [I2 [I3 I4]]] ->.
-  destruct cw0.
-  - specialize (I4 eq_refl). specialize (I2 I4). destruct spc0; try reflexivity; destruct I2.
-  - destruct I3 as [_ I3]. specialize (I3 eq_refl). destruct spc0; try reflexivity; discriminate.
+  dst s; unfold inv5; cbn. intros [I1 [I2 [I3 _]]] ->. specialize (I2 eq_refl).
+  destruct spc0; try reflexivity; cbn in *; destruct (I3 I2 eq_refl) as [? _]; discriminate.
+Qed.
+
+(** [closed] is a latch, and so is "a Close call has returned" *)
+Lemma closed_latch sc s l s1 :
+  In (l, s1) (step true sc s) ->
+  (r_closed s = true -> r_closed s1 = true) /\ (c_done s = true -> c_done s1 = true).
+Proof.
+  intros H. dst s; cbn in *; split_step H; crunch H; cbn in *; splitifs; auto.
 Qed.
 
 Definition R_after_rc (s : st) (m : astate) : Prop :=
   inv3 s /\ inv5 s /\ a_bad m = false /\
-  a_closed m = (match c_pc s with CFin => Some (c_ok s) | _ => None end).
+  match a_closed m with None => c_done s = false | Some _ => c_done s = true end.
 
 Lemma R_after_rc_tau sc s m s1 :
   R_after_rc s m -> In (None, s1) (step true sc s) -> R_after_rc s1 m.
 Proof.
   intros [I3 [I5 [B E]]] H. split; [eapply inv3_step; eauto|]. split; [eapply inv5_step; eauto|].
-  split; [exact B|]. rewrite E. clear I3 I5 E. dst s; cbn in *.
-  split_step H; crunch H; cbn in *; splitifs; try reflexivity.
+  split; [exact B|]. clear I3 I5. destruct (a_closed m); dst s; cbn in *;
+  split_step H; crunch H; cbn in *; splitifs; try assumption; try reflexivity.
 Qed.
 
 Lemma R_after_rc_vis sc s m l s1 :
@@ -75,12 +89,14 @@ Proof.
   assert (Q := rc_closed_quiet _ I5).
   assert (I3' := inv3_step _ _ _ _ I3 H). assert (I5' := inv5_step _ _ _ _ I3 I5 H).
   unfold R_after_rc. split; [|split; [exact I3'|split; [exact I5'|]]]; clear I3 I5 I3' I5';
-  destruct m as [mc mm ms mb]; dst s; cbn in *; subst mc mb;
-  split_step H; crunch H; cbn in *; splitifs; try (split; reflexivity); try reflexivity;
-  try (destruct cpc0; try discriminate; specialize (Q eq_refl); discriminate).
+  destruct m as [mc mm ms mb]; dst s; cbn in *; subst mb;
+  split_step H; crunch H; cbn in *; destruct mc; cbn in *; splitifs;
+  try (split; reflexivity); try (split; [reflexivity|assumption]); try reflexivity; try assumption;
+  try (specialize (Q E); discriminate).
 Qed.
 
-(** ** a bare Base/Cache client: at most one message after a successful Close *)
+(** ** a bare Base/Cache client: at most one message after a successful Close
+       of the Subscribe call in progress (a new Subscribe re-opens the client) *)
 
 Definition post_install (p : spc) : bool :=
   match p with
@@ -88,20 +104,42 @@ Definition post_install (p : spc) : bool :=
   | _ => false
   end.
 
-Definition inv6 (s : st) : Prop :=
-  (match b_impl s with NoImpl => True | Impl _ => post_install (s_pc s) = true end) /\
-  (match c_pc s with
-   | CBaseHold | CWait | CRet | CFin =>
-       c_ok s = true -> b_closed s = true /\ b_impl s <> NoImpl
-   | _ => True end).
+Definition c_after_base (c : cpc) : bool :=
+  match c with CBaseHold | CWait | CRet => true | _ => false end.
 
-Lemma inv6_step sc s l s1 : inv6 s -> In (l, s1) (step false sc s) -> inv6 s1.
+Definition c_inflight (c : cpc) : bool :=
+  match c with CIdle | CFin => false | _ => true end.
+
+Definition inv6 (s : st) : Prop :=
+  (match b_impl s with
+   | NoImpl => True
+   | Impl j => j <= s_att s /\ (j = s_att s -> post_install (s_pc s) = true)
+   end) /\
+  (c_inflight (c_pc s) = true -> s_att s = 0 \/ s_pc s = SFin) /\
+  (c_after_base (c_pc s) = true -> c_ok s = true ->
+   b_closed s = true /\ post_install (s_pc s) = true) /\
+  (c_done s = true -> b_closed s = true /\ post_install (s_pc s) = true) /\
+  (s_pc s = SIdle -> s_att s = 0 /\ b_impl s = NoImpl) /\
+  (b_closed s = true -> b_impl s <> NoImpl) /\
+  (c_done s = true -> c_after_base (c_pc s) = true -> c_ok s = true).
+
+Lemma inv6_step sc s l s1 : inv1 false s -> inv6 s -> In (l, s1) (step false sc s) -> inv6 s1.
 Proof.
-  intros I H. dst s; unfold inv6 in *; cbn in *;
+  intros I1 I H. pose proof (proj1 (proj2 (proj2 (proj2 (proj2 I1)))) eq_refl) as [HR _]. clear I1.
+  dst s; unfold inv6 in *; cbn in *;
   split_step H; crunch H; cbn in *; splitifs;
-  try solve [intuition (try congruence; try discriminate)];
-  try destruct cpc0; cbn in *;
-  intuition (try congruence; try discriminate).
+  repeat match goal with
+         | E : (_ =? _)%nat = true |- _ => apply Nat.eqb_eq in E; subst
+         | E : _ || _ = true |- _ => apply orb_true_iff in E
+         | E : _ || _ = false |- _ => apply orb_false_iff in E; destruct E
+         end;
+  try solve [intuition (try congruence; try discriminate; try lia)];
+  try destruct cpc0; try destruct bi0; cbn in *;
+  intuition (try congruence; try discriminate; try lia).
+  all: try (destruct spc0; cbn in *; try discriminate; auto; fail).
+  all: try (subst; repeat match goal with H : ?j <= 0 |- _ => assert (j = 0) by lia; subst; clear H end;
+            intuition (try congruence; try discriminate)).
+  all: try (left; apply Nat.eqb_eq; assumption).
 Qed.
 
 Definition seen_ok (s : st) (m : astate) : Prop :=
@@ -115,22 +153,21 @@ Definition seen_ok (s : st) (m : astate) : Prop :=
   end.
 
 Definition R_after_base (s : st) (m : astate) : Prop :=
-  inv6 s /\ a_bad m = false /\
-  a_closed m = (match c_pc s with CFin => Some (c_ok s) | _ => None end) /\
+  inv1 false s /\ inv6 s /\ a_bad m = false /\
+  (match a_closed m with Some true => c_done s = true | _ => c_done s = false end) /\
   (match s_pc s with
    | SItem i | SDeliver i _ _ | SSyncEnd i => a_curmsg m = (s_att s, i)
    | _ => True end) /\
-  (match c_pc s with CFin => if c_ok s then seen_ok s m else a_seen m = None
-   | _ => a_seen m = None end).
+  (if c_done s then seen_ok s m else a_seen m = None).
 
 Lemma R_after_base_tau sc s m s1 :
   R_after_base s m -> In (None, s1) (step false sc s) -> R_after_base s1 m.
 Proof.
-  intros [I6 [B [E [Cm Sn]]]] H. split; [eapply inv6_step; eauto|]. split; [exact B|].
-  destruct m as [mc mm ms mb]; dst s; unfold inv6, seen_ok in *; cbn in *; subst mc mb;
+  intros [I1 [I6 [B [E [Cm Sn]]]]] H. split; [eapply inv1_step; eauto|]. split; [eapply inv6_step; eauto|]. split; [exact B|]. clear I1.
+  destruct m as [mc mm ms mb]; dst s; unfold inv6, seen_ok in *; cbn in *; subst mb;
   split_step H; crunch H; cbn in *; splitifs;
   try solve [intuition (try congruence; try discriminate)];
-  try destruct cpc0; try destruct cok0; try destruct ms; cbn in *;
+  try destruct cd0; try destruct ms; cbn in *;
   intuition (try congruence; try discriminate).
 Qed.
 
@@ -141,14 +178,15 @@ Lemma R_after_base_vis sc s m l s1 :
   R_after_base s m -> In (Some l, s1) (step false sc s) ->
   a_bad (after_step false m l) = false /\ R_after_base s1 (after_step false m l).
 Proof.
-  intros [I6 [B [E [Cm Sn]]]] H.
-  assert (I6' := inv6_step _ _ _ _ I6 H).
-  unfold R_after_base. split; [|split; [exact I6'|]]; clear I6';
-  destruct m as [mc mm ms mb]; dst s; unfold inv6, seen_ok in *; cbn in *; subst mc mb;
-  split_step H; crunch H; cbn in *; splitifs; cbn in *;
+  intros [I1 [I6 [B [E [Cm Sn]]]]] H.
+  assert (I6' := inv6_step _ _ _ _ I1 I6 H). assert (I1' := inv1_step _ _ _ _ _ I1 H).
+  unfold R_after_base. split; [|split; [exact I1'|split; [exact I6'|]]]; clear I6' I1' I1;
+  destruct m as [mc mm ms mb]; dst s; unfold inv6, seen_ok in *; cbn in *; subst mb;
+  split_step H; crunch H; cbn in *;
+  try destruct mc as [[|]|]; cbn in *; splitifs; cbn in *;
   rewrite ?pair_eqb_refl;
   try solve [intuition (try congruence; try discriminate)];
-  try destruct cpc0; try destruct cok0; try destruct ms; cbn in *; subst; rewrite ?pair_eqb_refl;
+  try destruct cd0; try destruct cok0; try destruct ms; cbn in *; subst; rewrite ?pair_eqb_refl;
   intuition (try congruence; try discriminate).
 Qed.
 
@@ -164,5 +202,5 @@ Proof.
     unfold R_after_rc, inv3, inv5, init; cbn. intuition (try congruence; try discriminate).
   - destruct (monitor_holds (step false sc) (after_step false) a_bad R_after_base
                 (R_after_base_tau sc) (R_after_base_vis sc) _ _ _ H astate0 0) as [G _]; [|exact G].
-    unfold R_after_base, inv6, init; cbn. intuition (try congruence; try discriminate).
+    split; [apply inv1_init|]. unfold R_after_base, inv6, init; cbn. intuition (try congruence; try discriminate).
 Qed.
